@@ -3,9 +3,28 @@ import ms_checks
 
 MS_COQ = ["ms/Driver.vo"]
 
+def _ms(run, technique, text, note="Kernel + extraction + correspondence check; CPython re/bytes builtins modelled in coq/lib/Bytes.v; the reference server (coq/ms/Server.v) stands for real servers."):
+    return {"level": "proof", "coq": MS_COQ, "drivers": ["ms"], "run": run, "technique": technique,
+            "level_text": text, "level_note": note}
+
+
 CHECKS = {
+    "C08": _ms(ms_checks.check_C08, "Coq proof (writer/strict-parser round trip) + model/client correspondence on bytes written",
+               "Theorem C08_one_command: for every verb and argument list the strict RFC 5804 parser applied to the bytes the writer model produces returns exactly that verb and those argument values with nothing left over; the writer model is tied to managesieve.py by comparing the bytes written by the extracted model and by the real client, and the strict parser (extracted) is run on the bytes the real client writes."),
+    "C09": _ms(ms_checks.check_C09, "Coq model of the reply reader + correspondence and direct oracle over the RFC 5804 reply grammar",
+               "Status-reply mirror: model of __read_line/__parse_status_text/__read_response tied to the client by differential runs over generated replies; the property (success iff OK, failure with errcode/errmsg iff NO, Error iff BYE, reply consumed exactly) is evaluated on the real client for every generated reply, also at each step of the emulated rename."),
     "C05": {"level": "proof", "coq": MS_COQ, "drivers": ["ms"], "run": ms_checks.check_C05,
             "technique": "Coq proof (induction over interaction trees and chunk lists) + model/client correspondence",
             "level_text": "Theorem C05_segmentation: for every client program (every operation) and every two segmentations of the same reply bytes the outcome, client state and unread stream agree; the hand-written client model is tied to managesieve.py by differential runs of the extracted model and the real client on generated reply streams under exhaustive one/two-cut and fixed/random chunkings, and the property itself is evaluated directly on the client.",
             "level_note": "Kernel + extraction + correspondence check; recv() modelled as returning a non-empty prefix of the pending bytes or timing out; CPython re/bytes builtins modelled in coq/lib/Bytes.v."},
+    "C10": _ms(ms_checks.check_C10, "Coq proof (trace invariant over interaction trees) + generated method inventory obligation + correspondence",
+               "Theorem C10_guarded / C10_tls_first over the client model: every script-management command in any trace is written under an authenticated client state set only by an AUTHENTICATE that ended with OK on the same connection; with STARTTLS no AUTHENTICATE precedes the handshake. The method inventory of managesieve.Client is regenerated from the source on every run (tools/gen_static.py) and the obligation that every method sending a script verb carries authentication_required is re-checked by vm_compute. Histories and handshake faults are run on the real client against the reference server."),
+    "C14": _ms(ms_checks.check_C14, "Coq model of emulated rename against the reference server + exhaustive fault enumeration on the real client",
+               "Emulated rename safety: exhaustive enumeration (initial states x fault placement x bodies) of the real client and of the model client against the extracted reference server, with the statement of C14 evaluated on the server state before/after; model theorems state the safety conditions on the abstract rename."),
+    "C15": _ms(ms_checks.check_C15, "composition of C05/C08/C09/C17 model theorems + session-level correspondence with the reference server",
+               "Whole sessions: the model client, the real client and the abstract server state are compared after every step of generated sessions (random encodings, permitted NO outcomes, segmentation)."),
+    "C16": _ms(ms_checks.check_C16, "Coq proofs (mechanism selection spec, base64 round trip, PLAIN/OAUTHBEARER exactness) + correspondence",
+               "Theorems: select_mech returns only mechanisms that are both supported and announced, the preferred one and no other when it is implemented, otherwise the first of DIGEST-MD5, PLAIN, LOGIN, OAUTHBEARER announced; b64_decode (b64_encode x) = Some x; the server-side decoders recover exactly (authzid, login, password) / (login, token). The AUTHENTICATE bytes of the real client are parsed and decoded independently for generated capability sets and unicode credentials."),
+    "C17": _ms(ms_checks.check_C17, "Coq model of listing/script decoding + correspondence and direct oracle against the reference server",
+               "Names and bodies: for generated stores (protocol look-alikes, CR/LF variations, multi-byte) served in every permitted encoding, getscript/listscripts of the real client are compared with the store and with the model client."),
 }
